@@ -390,12 +390,14 @@ class QueryPlanner:
             from_table=query.from_table,
             where=query.where,
             order_by=query.order_by,
-            limit=query.limit,
+            # with an OFFSET the first rows have to be skipped before the limit is counted: both stay in the outer select
+            limit=query.limit if query.offset is None else None,
         )
         prev_step = self.plan_integration_select(query2)
 
         # clear limit and where
-        query.limit = None
+        if query.offset is None:
+            query.limit = None
         query.where = None
         return self.plan_sub_select(query, prev_step)
 
